@@ -437,7 +437,7 @@ func runRecordRulesAs(c *Ctx, P string) {
 				if !ok {
 					continue
 				}
-				if op == "==" && exhausts(wr, l, r) {
+				if (op == "==" && exhausts(wr, l, r)) || ((op == "<=" || op == ">=") && exhaustsLinear(l, r, op)) {
 					loopOK = true
 				} else if op == "==" || op == ">=" || op == ">" {
 					why = "the last-fragment bit is set under `" + l.Name() + " " + op + " " + r.Name() + "`, which is not `remaining == fragmentLen` (this fragment exhausts the data)"
@@ -487,6 +487,9 @@ func isLenOfParam(v ssa.Value, fn *ssa.Function) bool {
 // the loop-carried remaining count R (phi updated by R - F), the other the
 // fragment length F of this iteration.
 func exhausts(fn *ssa.Function, l, r ssa.Value) bool {
+	if exhaustsLinear(l, r, "==") {
+		return true
+	}
 	check := func(rem, frag ssa.Value) bool {
 		phi, ok := rem.(*ssa.Phi)
 		if !ok {
